@@ -50,7 +50,8 @@ type zzvSAEntry struct {
 }
 
 type zzvSAState struct {
-	Key   bool                  `json:"key"`
+	Key     bool                  `json:"key"`
+	SleepOn bool                  `json:"sleepon"`
 	Cache map[string]zzvSAEntry `json:"cache"`
 	St    string                `json:"st"`
 }
@@ -116,7 +117,7 @@ type zzvSAWorld struct {
 
 const zzvSAWait = 20 * time.Second
 
-func zzvSANewWorld(t *testing.T, in *zzvSAIn, key, realCallbacks bool, seed int64) *zzvSAWorld {
+func zzvSANewWorld(t *testing.T, in *zzvSAIn, key, sleepOn, realCallbacks bool, seed int64) *zzvSAWorld {
 	w := &zzvSAWorld{t: t, in: in, pup: map[string]*zzvPuppet{}, ids: map[string]zzvSAKey{}, rev: map[zzvSAKey]string{},
 		genuine: map[string][64]byte{}, rng: mrand.New(mrand.NewSource(seed))}
 	var err error
@@ -128,7 +129,8 @@ func zzvSANewWorld(t *testing.T, in *zzvSAIn, key, realCallbacks bool, seed int6
 	}
 	w.m = zzvNewMesh(t)
 	w.x = w.m.Add(zzvNodeSpec{Name: "X", Listen: true, Mut: func(c *config.Config) {
-		c.Sleep.Enabled = true
+		// sleep mode off: a relay - no sleep manager, but commands are still verified, deduplicated and forwarded
+		c.Sleep.Enabled = sleepOn
 		c.Sleep.PollInterval = time.Hour
 		c.Sleep.PersistState = false
 		// a local exit route: X then has a routing table to send to a new peer (SendFullTable), which marks the end
@@ -140,10 +142,10 @@ func zzvSANewWorld(t *testing.T, in *zzvSAIn, key, realCallbacks bool, seed int6
 		}
 	}})
 	w.m.Start("X")
-	if w.x.A.sleepMgr == nil {
-		t.Fatal("zzv: agent has no sleep manager")
+	if (w.x.A.sleepMgr != nil) != sleepOn {
+		t.Fatalf("zzv: sleep manager present = %v, sleep mode = %v", w.x.A.sleepMgr != nil, sleepOn)
 	}
-	if !realCallbacks {
+	if !realCallbacks && sleepOn {
 		w.x.A.sleepMgr.SetCallbacks(sleep.Callbacks{
 			OnSleep: func() error { w.nSleep.Add(1); return nil },
 			OnWake:  func() error { w.nWake.Add(1); return nil },
@@ -429,7 +431,7 @@ func zzvSARunPath(t *testing.T, in *zzvSAIn, pi int, seed int64) (out map[string
 	path := in.Paths[pi]
 	out = map[string]any{"path": pi, "label": path.Label, "steps": 0, "status": "ok"}
 	real := len(path.Label) >= 4 && path.Label[:4] == "real"
-	w := zzvSANewWorld(t, in, path.Init.Key, real, seed+int64(pi))
+	w := zzvSANewWorld(t, in, path.Init.Key, path.Init.SleepOn, real, seed+int64(pi))
 	if w.obs() != path.Init.obs() {
 		out["status"], out["step"], out["real_t"], out["spec_t"] = "mismatch", -1, w.obs(), path.Init.obs()
 		return
